@@ -186,7 +186,7 @@ impl<'f> fixed_point::FixedPointAnalysis<'f, IntermediateOffset> for StackPointe
                     .ok_or("Unable to get function entry")??;
 
                 if location == function_entry {
-                    IntermediateOffset::Value(il::const_(0, 32))
+                    IntermediateOffset::Value(il::const_(0, self.stack_pointer.bits()))
                 } else {
                     IntermediateOffset::Top
                 }
